@@ -206,6 +206,12 @@ func credentialIsSecure(credential string) error {
 		return fmt.Errorf("cannot parse credential: jws.ParseString: %w", err)
 	}
 
+	// A credential must carry exactly one signature. The JSON serialization allows multiple signatures, of which
+	// only one needs to verify: reject those, since the other signatures (and their headers) would go unchecked.
+	if len(message.Signatures()) != 1 {
+		return fmt.Errorf("credential must contain exactly 1 signature (found %d)", len(message.Signatures()))
+	}
+
 	// Inspect the signatures in the message
 	secureSignatureCount := 0
 	for _, signature := range message.Signatures() {
